@@ -1386,6 +1386,21 @@ def _decode(d) -> tuple:
     return (type(obj).__name__, obj.name, text, num)
 
 
+_PROP_BASE: dict = {}
+
+
+def _prop_baseline() -> None:
+    """(value class, name) of every (tag, family), taken in the parent process before any worker exists: all generic decodes
+    first, then family by family.  On a tree where decoding leaves no trace this is simply the decode table; where it does
+    leave one, the generic entries are still those of an unused interpreter and the workers (which inherit the parent's
+    state) disagree with them."""
+    table = {}
+    for fam in sorted(set(_PROP_FAMILIES), key=lambda f: (f is not None, f or "")):
+        for tag in range(0x100):
+            table[(tag, fam)] = _decode({"tag": tag, "words": [1, 2, 3, 4], "family": fam, "mem": 0})[:2]
+    _PROP_BASE["table"] = table
+
+
 def run_properties(case, o: Oracle) -> None:
     """A property word decodes to the same value object whatever was decoded before (for another device family, another
     memory, another tag), and plain integer properties carry the word itself."""
@@ -1403,7 +1418,13 @@ def run_properties(case, o: Oracle) -> None:
         o.label("prop_family_and_generic")
     o.nontrivial(len(fams) > 1)
     o.sample({"decodes": [[d["tag"], d["family"], first[i][0]] for i, d in enumerate(decs)][:4]})
+    base = _PROP_BASE.get("table") or {}
     for i, d in enumerate(decs):
+        want = base.get((d["tag"], d["family"]))
+        if want is not None and first[i][0] not in ("raises", "none") and want[0] not in ("raises", "none"):
+            # value class and name of a (tag, family) as decoded before anything else was (generic decodes first): see _prop_baseline
+            o.check("properties", first[i][:2] == want, "depends_on_earlier_decodes",
+                    "tag 0x%02x family %s: decoded as %r, in an unused interpreter as %r" % (d["tag"], d["family"], first[i][:2], want))
         o.check("properties", first[i] == again[i], "depends_on_history",
                 "tag 0x%02x words %s family %s: decoded as %r, after the other decodes of this history as %r" % (d["tag"], d["words"], d["family"], first[i], again[i]))
         if first[i][0] == "IntValue":
@@ -1411,6 +1432,7 @@ def run_properties(case, o: Oracle) -> None:
 
 def parts(ctx):
     tier = ctx.tier
+    _prop_baseline()
     return [
         EnumPart("fault_enum", _enum_count, _enum_item, run_enum),
         HypPart("mb_serial", _mb_case("mb_serial", tier), run_history, {"quick": 1400, "thorough": 60000}),
